@@ -19,6 +19,7 @@ import (
 
 	thanoscache "github.com/thanos-io/thanos/pkg/cache"
 	storecache "github.com/thanos-io/thanos/pkg/store/cache"
+	"github.com/thanos-io/thanos/pkg/store/cache/cachekey"
 	"github.com/thanos-io/thanos/verifharness/hlib"
 )
 
@@ -71,17 +72,17 @@ func (b *logBucket) Attributes(ctx context.Context, name string) (objstore.Objec
 }
 
 func (b *logBucket) Get(ctx context.Context, name string) (io.ReadCloser, error) {
-	b.log("Get")
+	b.log("G")
 	return b.InMemBucket.Get(ctx, name)
 }
 
 func (b *logBucket) Exists(ctx context.Context, name string) (bool, error) {
-	b.log("Exists")
+	b.log("E")
 	return b.InMemBucket.Exists(ctx, name)
 }
 
 func (b *logBucket) Iter(ctx context.Context, dir string, f func(string) error, options ...objstore.IterOption) error {
-	b.log("Iter")
+	b.log("I")
 	return b.InMemBucket.Iter(ctx, dir, f, options...)
 }
 
@@ -126,54 +127,123 @@ func (c *lossyCache) Fetch(_ context.Context, keys []string) map[string][]byte {
 	return out
 }
 
+// c14Op is one call on the caching bucket.
 type c14Op struct {
-	kind        byte // r g G e E a A i
+	kind        byte // r g e a i
+	name        string
 	off, length int64
+	p           int
 	mode        string // g: f | x | h<n>
+	recursive   bool
+	listing     []string // i: what the wrapped bucket lists (third-party input, verified by Exec)
 	pats        []string
 }
 
 func okPat(p string) bool { return p != "" && strings.Trim(p, "012") == "" }
 
-func parseC14Op(s string) (c14Op, bool) {
+func okMode(m string) bool {
+	if m == "f" || m == "x" {
+		return true
+	}
+	if !strings.HasPrefix(m, "h") {
+		return false
+	}
+	_, err := strconv.Atoi(m[1:])
+	return err == nil
+}
+
+// parseLegacyOp: the ops of cb.hist / cb.mix (one object "obj", absent object "nope").
+func parseLegacyOp(s string, p int) (c14Op, bool) {
 	if s == "" {
 		return c14Op{}, false
 	}
-	op := c14Op{kind: s[0]}
+	op := c14Op{kind: s[0], name: c14Obj, p: p, mode: "f"}
 	rest := s[1:]
-	switch op.kind {
+	switch s[0] {
 	case 'r':
-		p := strings.Split(rest, ",")
-		if len(p) != 4 || !okPat(p[2]) || !okPat(p[3]) {
+		f := strings.Split(rest, ",")
+		if len(f) != 4 || !okPat(f[2]) || !okPat(f[3]) {
 			return op, false
 		}
-		o, err1 := strconv.ParseInt(p[0], 10, 64)
-		l, err2 := strconv.ParseInt(p[1], 10, 64)
+		o, err1 := strconv.ParseInt(f[0], 10, 64)
+		l, err2 := strconv.ParseInt(f[1], 10, 64)
 		if err1 != nil || err2 != nil || o < 0 || l <= 0 {
 			return op, false
 		}
-		op.off, op.length, op.pats = o, l, []string{p[2], p[3]}
+		op.off, op.length, op.pats = o, l, []string{f[2], f[3]}
 		return op, true
 	case 'g':
-		p := strings.Split(rest, ",")
-		if len(p) != 2 || !okPat(p[1]) {
+		f := strings.Split(rest, ",")
+		if len(f) != 2 || !okPat(f[1]) || !okMode(f[0]) {
 			return op, false
 		}
-		if p[0] != "f" && p[0] != "x" {
-			if !strings.HasPrefix(p[0], "h") {
-				return op, false
-			}
-			if _, err := strconv.Atoi(p[0][1:]); err != nil {
-				return op, false
-			}
-		}
-		op.mode, op.pats = p[0], []string{p[1]}
+		op.mode, op.pats = f[0], []string{f[1]}
 		return op, true
-	case 'G', 'e', 'E', 'a', 'A', 'i':
+	case 'G', 'E', 'A':
+		op.kind, op.name = s[0]+'a'-'A', c14Missing
+		fallthrough
+	case 'e', 'a':
 		if !okPat(rest) {
 			return op, false
 		}
-		op.mode, op.pats = "f", []string{rest}
+		op.pats = []string{rest}
+		return op, true
+	case 'i':
+		if !okPat(rest) {
+			return op, false
+		}
+		op.name, op.pats, op.listing = "", []string{rest}, []string{"obj", "zdir/"}
+		return op, true
+	}
+	return op, false
+}
+
+// parseWorldOp: kind:field:field…
+func parseWorldOp(s string) (c14Op, bool) {
+	f := strings.Split(s, ":")
+	if len(f) < 3 || len(f[0]) != 1 {
+		return c14Op{}, false
+	}
+	op := c14Op{kind: f[0][0], mode: "f", p: 512}
+	name, ok := unhexS(f[1])
+	if !ok {
+		return op, false
+	}
+	op.name = name
+	switch {
+	case op.kind == 'r' && len(f) == 7:
+		o, err1 := strconv.ParseInt(f[2], 10, 64)
+		l, err2 := strconv.ParseInt(f[3], 10, 64)
+		p, err3 := strconv.Atoi(f[4])
+		if err1 != nil || err2 != nil || err3 != nil || o < 0 || l <= 0 || p <= 0 || !okPat(f[5]) || !okPat(f[6]) {
+			return op, false
+		}
+		op.off, op.length, op.p, op.pats = o, l, p, []string{f[5], f[6]}
+		return op, true
+	case op.kind == 'g' && len(f) == 4:
+		if !okMode(f[2]) || !okPat(f[3]) {
+			return op, false
+		}
+		op.mode, op.pats = f[2], []string{f[3]}
+		return op, true
+	case (op.kind == 'e' || op.kind == 'a') && len(f) == 3:
+		if !okPat(f[2]) {
+			return op, false
+		}
+		op.pats = []string{f[2]}
+		return op, true
+	case op.kind == 'i' && len(f) == 5:
+		if (f[2] != "0" && f[2] != "1") || !okPat(f[3]) {
+			return op, false
+		}
+		op.recursive, op.pats = f[2] == "1", []string{f[3]}
+		for _, n := range hlib.Split(f[4], ",") {
+			x, ok := unhexS(n)
+			if !ok {
+				return op, false
+			}
+			op.listing = append(op.listing, x)
+		}
 		return op, true
 	}
 	return op, false
@@ -194,17 +264,6 @@ func readAllP(r io.Reader, p int, limit int) ([]byte, error) {
 		}
 	}
 	return out, fmt.Errorf("reader does not end")
-}
-
-// subrangeKey parses "subrange:<name>:<start>:<end>".
-func subrangeKey(k string) (int64, int64, bool) {
-	p := strings.Split(k, ":")
-	if len(p) != 4 || p[0] != "subrange" || p[1] != c14Obj {
-		return 0, 0, false
-	}
-	a, err1 := strconv.ParseInt(p[2], 10, 64)
-	b, err2 := strconv.ParseInt(p[3], 10, 64)
-	return a, b, err1 == nil && err2 == nil
 }
 
 // execC14 runs a history in this process, or — in isolate mode (see main.go) — in a worker
@@ -276,42 +335,86 @@ func c14Child(_ []string) {
 const c14Missing = "nope"
 
 func execC14InProc(violation func(class, what string), tok []string) string {
-	var maxGet int
-	var opsTok string
+	if len(tok) > 0 && tok[0] == "cb.key" {
+		return c14Key(violation, tok)
+	}
+	objects := map[string][]byte{}
+	var ops []c14Op
+	var S int64
+	var maxSub, maxGet int
+	hash := "h"
 	switch {
-	case len(tok) == 6 && tok[0] == "cb.hist":
-		opsTok = tok[5]
-	case len(tok) == 7 && tok[0] == "cb.mix":
-		var err error
-		if maxGet, err = strconv.Atoi(tok[5]); err != nil || maxGet < 0 {
+	case (len(tok) == 6 && tok[0] == "cb.hist") || (len(tok) == 7 && tok[0] == "cb.mix"):
+		obj, err := hlib.UnHex(tok[1])
+		var err1, err2, err3, err4 error
+		S, err1 = strconv.ParseInt(tok[2], 10, 64)
+		maxSub, err2 = strconv.Atoi(tok[3])
+		p, err3 := strconv.Atoi(tok[4])
+		opsTok := tok[5]
+		if tok[0] == "cb.mix" {
+			maxGet, err4 = strconv.Atoi(tok[5])
+			opsTok = tok[6]
+		}
+		if err != nil || err1 != nil || err2 != nil || err3 != nil || err4 != nil || S <= 0 || p <= 0 || maxSub < 0 || maxGet < 0 {
 			return "bad-op"
 		}
-		opsTok = tok[6]
+		if obj == nil {
+			obj = []byte{}
+		}
+		objects[c14Obj], objects["zdir/file"] = obj, []byte("x")
+		for _, s := range strings.Split(opsTok, ";") {
+			op, ok := parseLegacyOp(s, p)
+			if !ok {
+				return "bad-op"
+			}
+			if op.kind == 'g' && strings.HasPrefix(op.mode, "h") {
+				if n, _ := strconv.Atoi(op.mode[1:]); n > len(obj) {
+					op.mode = fmt.Sprintf("h%d", len(obj))
+				}
+			}
+			ops = append(ops, op)
+		}
+	case len(tok) == 7 && tok[0] == "cb.world":
+		var err1, err2, err3 error
+		S, err1 = strconv.ParseInt(tok[1], 10, 64)
+		maxSub, err2 = strconv.Atoi(tok[2])
+		maxGet, err3 = strconv.Atoi(tok[3])
+		h, ok := unhexS(tok[4])
+		if err1 != nil || err2 != nil || err3 != nil || !ok || S <= 0 || maxSub < 0 || maxGet < 0 {
+			return "bad-op"
+		}
+		hash = h
+		for _, e := range hlib.Split(tok[5], ",") {
+			kv := strings.Split(e, "=")
+			if len(kv) != 2 {
+				return "bad-op"
+			}
+			n, ok1 := unhexS(kv[0])
+			b, err := hlib.UnHex(kv[1])
+			if !ok1 || err != nil || n == "" {
+				return "bad-op"
+			}
+			if b == nil {
+				b = []byte{}
+			}
+			objects[n] = b
+		}
+		for _, s := range strings.Split(tok[6], ";") {
+			op, ok := parseWorldOp(s)
+			if !ok {
+				return "bad-op"
+			}
+			ops = append(ops, op)
+		}
 	default:
 		return "bad-op"
 	}
-	obj, err := hlib.UnHex(tok[1])
-	S, err1 := strconv.ParseInt(tok[2], 10, 64)
-	maxSub, err2 := strconv.Atoi(tok[3])
-	p, err3 := strconv.Atoi(tok[4])
-	if err != nil || err1 != nil || err2 != nil || err3 != nil || S <= 0 || p <= 0 || maxSub < 0 {
-		return "bad-op"
-	}
-	var ops []c14Op
-	for _, s := range strings.Split(opsTok, ";") {
-		op, ok := parseC14Op(s)
-		if !ok {
-			return "bad-op"
-		}
-		ops = append(ops, op)
-	}
 	ctx := context.Background()
 	inmem := objstore.NewInMemBucket()
-	if err := inmem.Upload(ctx, c14Obj, bytes.NewReader(obj)); err != nil {
-		return "bad-op"
-	}
-	if err := inmem.Upload(ctx, "zdir/file", bytes.NewReader([]byte("x"))); err != nil {
-		return "bad-op"
+	for n, b := range objects {
+		if err := inmem.Upload(ctx, n, bytes.NewReader(b)); err != nil {
+			return "bad-op"
+		}
 	}
 	lb := &logBucket{InMemBucket: inmem}
 	lc := &lossyCache{data: map[string][]byte{}}
@@ -321,202 +424,230 @@ func execC14InProc(violation func(class, what string), tok []string) string {
 	cfg.CacheGet("verif", lc, all, maxGet, time.Hour, time.Hour, time.Hour)
 	cfg.CacheExists("verif", lc, all, time.Hour, time.Hour)
 	cfg.CacheAttributes("verif", lc, all, time.Hour)
-	cfg.CacheIter("verif", lc, all, time.Hour, storecache.JSONIterCodec{}, "h")
+	cfg.CacheIter("verif", lc, all, time.Hour, storecache.JSONIterCodec{}, hash)
 	cb, err := storecache.NewCachingBucket(lb, cfg, log.NewNopLogger(), nil)
 	if err != nil {
 		return "bad-op"
 	}
-	size := int64(len(obj))
 	var answers []string
 	for _, op := range ops {
 		lc.pats = append([]string(nil), op.pats...)
 		lc.stores = nil
 		lb.calls = nil
-		if op.kind != 'r' {
-			answers = append(answers, c14Verb(violation, ctx, cb, inmem, lb, op, obj, p))
-			c14CheckCache(violation, lc, obj)
-			continue
-		}
-		out, perr := func() (out string, perr any) {
-			defer func() {
-				if r := recover(); r != nil {
-					out, perr = "panic", r
-				}
-			}()
-			r, err := cb.GetRange(ctx, c14Obj, op.off, op.length)
-			if err != nil {
-				return "err", err
+		if op.kind == 'i' {
+			// the listing in the op line must be what the wrapped bucket lists
+			var names []string
+			_ = inmem.Iter(ctx, op.name, func(n string) error { names = append(names, n); return nil }, iterOpts(op.recursive)...)
+			if strings.Join(names, "\x00") != strings.Join(op.listing, "\x00") {
+				return "bad-op"
 			}
-			defer r.Close()
-			b, err := readAllP(r, p, int(op.length)+10)
-			if err != nil {
-				return "err", err
-			}
-			return hlib.Hex(b), nil
-		}()
-		// the wrapped bucket's own answer
-		want := "err"
-		if r, err := inmem.GetRange(ctx, c14Obj, op.off, op.length); err == nil {
-			b, _ := io.ReadAll(r)
-			want = hlib.Hex(b)
 		}
-		if out != want {
-			class := "getrange-not-transparent"
+		got := c14Run(ctx, cb, cb.IsObjNotFoundErr, op, objects)
+		calls := append([]string(nil), lb.calls...)
+		stores := append([]string(nil), lc.stores...)
+		want := c14Run(ctx, inmem, inmem.IsObjNotFoundErr, op, objects)
+		if got != want {
+			class := map[byte]string{'r': "getrange", 'g': "get", 'e': "exists", 'a': "attributes", 'i': "iter"}[op.kind] + "-not-transparent"
 			switch {
-			case out == "panic" && op.off > size:
+			case op.kind == 'r' && got == "panic" && op.off > int64(len(objects[op.name])):
 				class = "getrange-panic-offset-beyond-object"
-			case out == "panic":
+			case op.kind == 'r' && got == "panic":
 				class = "getrange-panic"
-			case out == "err":
+			case op.kind == 'r' && got == "err":
 				class = "getrange-error"
 			}
-			violation(class, fmt.Sprintf("GetRange(off=%d, len=%d) on a %d-byte object, subrange size %d: caching bucket %s (%v), wrapped bucket %s",
-				op.off, op.length, size, S, short(out), perr, short(want)))
+			violation(class, fmt.Sprintf("%s on %q: caching bucket %s, wrapped bucket %s", describeC14(op), op.name, short(got), short(want)))
 		}
-		c14CheckCache(violation, lc, obj)
-		attr, reads := "-", []string{}
+		c14CheckCache(violation, lc, objects)
+		// canonical: the modification time is compared above, not printed
+		if i := strings.Index(got, "@"); i > 0 && strings.HasPrefix(got, "size:") {
+			got = got[:i]
+		}
+		if got == "panic" || got == "err" {
+			// what the goroutines did before the failure is scheduling dependent
+			answers = append(answers, got+"/-/-")
+			continue
+		}
+		// calls: A G E I first (at most one of each per op), then the range reads sorted
+		var head []string
 		type pr struct{ a, b int64 }
 		var rs []pr
-		for _, cl := range lb.calls {
-			if cl == "A" {
-				attr = "A"
-			} else {
+		for _, cl := range calls {
+			if strings.HasPrefix(cl, "R") {
 				var a, b int64
 				fmt.Sscanf(cl, "R%d+%d", &a, &b)
 				rs = append(rs, pr{a, b})
+			} else {
+				head = append(head, cl)
 			}
 		}
 		sort.Slice(rs, func(i, j int) bool { return rs[i].a < rs[j].a || (rs[i].a == rs[j].a && rs[i].b < rs[j].b) })
 		for _, x := range rs {
-			reads = append(reads, fmt.Sprintf("%d+%d", x.a, x.b))
+			head = append(head, fmt.Sprintf("R%d+%d", x.a, x.b))
 		}
-		var ss []pr
-		for _, k := range lc.stores {
-			if a, b, ok := subrangeKey(k); ok {
-				ss = append(ss, pr{a, b})
-			}
+		var sk []string
+		for _, k := range stores {
+			sk = append(sk, hlib.HexS(k))
 		}
-		sort.Slice(ss, func(i, j int) bool { return ss[i].a < ss[j].a || (ss[i].a == ss[j].a && ss[i].b < ss[j].b) })
-		stores := []string{}
-		for _, x := range ss {
-			stores = append(stores, fmt.Sprintf("%d-%d", x.a, x.b))
-		}
-		if out == "panic" || out == "err" {
-			// what the goroutines did before the failure is scheduling dependent
-			reads, stores = nil, nil
-		}
-		answers = append(answers, fmt.Sprintf("%s/%s/%s/%s", out, attr, hlib.Join(reads, ","), hlib.Join(stores, ",")))
+		sort.Strings(sk)
+		answers = append(answers, got+"/"+hlib.Join(head, "+")+"/"+hlib.Join(sk, ","))
 	}
 	return strings.Join(answers, ";")
 }
 
-// c14CheckCache: the cache holds only what the wrapped bucket says, under exact keys.
-func c14CheckCache(violation func(class, what string), lc *lossyCache, obj []byte) {
-	size := int64(len(obj))
-	for k, v := range lc.data {
-		switch {
-		case strings.HasPrefix(k, "subrange:"):
-			if a, b, ok := subrangeKey(k); ok {
-				if a < 0 || b > size || a >= b || !bytes.Equal(v, obj[a:b]) {
-					violation("cache-poisoned", fmt.Sprintf("key %s holds %d bytes that are not obj[%d:%d]", k, len(v), a, b))
-				}
-			}
-		case k == "content:"+c14Obj:
-			if !bytes.Equal(v, obj) {
-				violation("cache-poisoned", fmt.Sprintf("key %s holds %d bytes, the object has %d", k, len(v), len(obj)))
-			}
-		case k == "exists:"+c14Obj && string(v) != "true", k == "exists:"+c14Missing && string(v) != "false", k == "content:"+c14Missing:
-			violation("cache-poisoned", fmt.Sprintf("key %s = %q", k, v))
+var c14Verbs = []cachekey.VerbType{cachekey.ExistsVerb, cachekey.ContentVerb, cachekey.IterVerb, cachekey.IterRecursiveVerb, cachekey.AttributesVerb, cachekey.SubrangeVerb}
+
+// c14Key: cb.key <verb 0..5> <name hex> <start> <end> <config hash hex> -> hex of BucketCacheKey.String
+func c14Key(violation func(class, what string), tok []string) string {
+	if len(tok) != 6 {
+		return "bad-op"
+	}
+	v, err := strconv.Atoi(tok[1])
+	name, err1 := hlib.UnHex(tok[2])
+	start, err2 := strconv.ParseInt(tok[3], 10, 64)
+	end, err3 := strconv.ParseInt(tok[4], 10, 64)
+	hash, err4 := hlib.UnHex(tok[5])
+	if err != nil || err1 != nil || err2 != nil || err3 != nil || err4 != nil || v < 0 || v > 5 || start < 0 || end < 0 {
+		return "bad-op"
+	}
+	k := cachekey.BucketCacheKey{Verb: c14Verbs[v], Name: string(name), Start: start, End: end, ObjectStorageConfigHash: string(hash)}
+	s := k.String()
+	// oracle: for names without ':' the key parses back to what it was built from
+	if !strings.Contains(string(name), ":") && !strings.Contains(string(hash), ":") && (start < end || (start == 0 && end == 0)) {
+		if back, err := cachekey.ParseBucketCacheKey(s); err != nil || back.Verb != k.Verb || back.Name != k.Name || back.Start != k.Start || back.End != k.End {
+			violation("bucket-key-roundtrip", fmt.Sprintf("key %q parses back to %+v (%v)", s, back, err))
 		}
 	}
+	return hlib.HexS(s)
 }
 
-// c14Verb runs one non-range op on the caching bucket and on the wrapped bucket and compares.
-func c14Verb(violation func(class, what string), ctx context.Context, cb *storecache.CachingBucket, inmem *objstore.InMemBucket, lb *logBucket, op c14Op, obj []byte, p int) string {
-	name := c14Obj
-	if op.kind == 'G' || op.kind == 'E' || op.kind == 'A' {
-		name = c14Missing
+func iterOpts(recursive bool) []objstore.IterOption {
+	if recursive {
+		return []objstore.IterOption{objstore.WithRecursiveIter()}
 	}
-	consume := func(r io.ReadCloser) (string, error) {
+	return nil
+}
+
+func describeC14(op c14Op) string {
+	switch op.kind {
+	case 'r':
+		return fmt.Sprintf("GetRange(off=%d, len=%d)", op.off, op.length)
+	case 'g':
+		return "Get(" + op.mode + ")"
+	case 'e':
+		return "Exists"
+	case 'a':
+		return "Attributes"
+	}
+	return fmt.Sprintf("Iter(recursive=%v)", op.recursive)
+}
+
+// c14Run runs one op on a bucket (the caching bucket or the wrapped one) and renders the answer.
+func c14Run(ctx context.Context, b objstore.Bucket, isNotFound func(error) bool, op c14Op, objects map[string][]byte) (ans string) {
+	defer func() {
+		if r := recover(); r != nil {
+			ans = "panic"
+		}
+	}()
+	size := len(objects[op.name])
+	switch op.kind {
+	case 'r':
+		r, err := b.GetRange(ctx, op.name, op.off, op.length)
+		if err != nil {
+			if isNotFound(err) {
+				return "notfound"
+			}
+			return "err"
+		}
+		defer r.Close()
+		data, err := readAllP(r, op.p, int(op.length)+10)
+		if err != nil {
+			return "err"
+		}
+		return hlib.Hex(data)
+	case 'g':
+		r, err := b.Get(ctx, op.name)
+		if err != nil {
+			if isNotFound(err) {
+				return "notfound"
+			}
+			return "err"
+		}
 		defer r.Close()
 		switch {
 		case op.mode == "f":
-			b, err := readAllP(r, p, len(obj)+10)
-			return hlib.Hex(b), err
+			data, err := readAllP(r, op.p, size+10)
+			if err != nil {
+				return "err"
+			}
+			return hlib.Hex(data)
 		case op.mode == "x":
-			b := make([]byte, len(obj))
-			_, err := io.ReadFull(r, b)
-			return hlib.Hex(b), err
+			data := make([]byte, size)
+			if _, err := io.ReadFull(r, data); err != nil {
+				return "err"
+			}
+			return hlib.Hex(data)
 		default:
 			n, _ := strconv.Atoi(op.mode[1:])
-			if n > len(obj) {
-				n = len(obj)
+			if n > size {
+				n = size
 			}
-			b := make([]byte, n)
-			_, err := io.ReadFull(r, b)
-			return hlib.Hex(b), err
+			data := make([]byte, n)
+			if _, err := io.ReadFull(r, data); err != nil {
+				return "err"
+			}
+			return hlib.Hex(data)
+		}
+	case 'e':
+		ok, err := b.Exists(ctx, op.name)
+		if err != nil {
+			return "err"
+		}
+		return strconv.FormatBool(ok)
+	case 'a':
+		at, err := b.Attributes(ctx, op.name)
+		if err != nil {
+			if isNotFound(err) {
+				return "notfound"
+			}
+			return "err"
+		}
+		return fmt.Sprintf("size:%d@%d", at.Size, at.LastModified.UnixNano())
+	}
+	var names []string
+	if err := b.Iter(ctx, op.name, func(n string) error { names = append(names, n); return nil }, iterOpts(op.recursive)...); err != nil {
+		return "err"
+	}
+	hx := make([]string, len(names))
+	for i, n := range names {
+		hx[i] = hlib.HexS(n)
+	}
+	return "names:" + hlib.Join(hx, ",")
+}
+
+// c14CheckCache: the cache holds only what the wrapped bucket says, under exact keys.
+func c14CheckCache(violation func(class, what string), lc *lossyCache, objects map[string][]byte) {
+	for k, v := range lc.data {
+		ck, err := cachekey.ParseBucketCacheKey(k)
+		if err != nil {
+			continue // names with ':' do not parse back; the model covers them
+		}
+		obj, present := objects[ck.Name]
+		switch ck.Verb {
+		case cachekey.SubrangeVerb:
+			if !present || ck.Start < 0 || ck.End > int64(len(obj)) || ck.Start >= ck.End || !bytes.Equal(v, obj[ck.Start:ck.End]) {
+				violation("cache-poisoned", fmt.Sprintf("key %s holds %d bytes that are not that range of the object", k, len(v)))
+			}
+		case cachekey.ContentVerb:
+			if !present || !bytes.Equal(v, obj) {
+				violation("cache-poisoned", fmt.Sprintf("key %s holds %d bytes, the object has %d", k, len(v), len(obj)))
+			}
+		case cachekey.ExistsVerb:
+			if string(v) != strconv.FormatBool(present) {
+				violation("cache-poisoned", fmt.Sprintf("key %s = %q", k, v))
+			}
 		}
 	}
-	run := func(b objstore.Bucket, isNotFound func(error) bool) (ans string) {
-		defer func() {
-			if r := recover(); r != nil {
-				ans = "panic"
-			}
-		}()
-		switch op.kind {
-		case 'g', 'G':
-			r, err := b.Get(ctx, name)
-			if err != nil {
-				if isNotFound(err) {
-					return "notfound"
-				}
-				return "err"
-			}
-			s, err := consume(r)
-			if err != nil {
-				return "err"
-			}
-			return s
-		case 'e', 'E':
-			ok, err := b.Exists(ctx, name)
-			if err != nil {
-				return "err"
-			}
-			return strconv.FormatBool(ok)
-		case 'a', 'A':
-			at, err := b.Attributes(ctx, name)
-			if err != nil {
-				if isNotFound(err) {
-					return "notfound"
-				}
-				return "err"
-			}
-			return fmt.Sprintf("size:%d@%d", at.Size, at.LastModified.UnixNano())
-		default:
-			var names []string
-			if err := b.Iter(ctx, "", func(n string) error { names = append(names, n); return nil }); err != nil {
-				return "err"
-			}
-			return "names:" + strings.Join(names, ",")
-		}
-	}
-	got := run(cb, cb.IsObjNotFoundErr)
-	calls := append([]string(nil), lb.calls...)
-	want := run(inmem, inmem.IsObjNotFoundErr)
-	if got != want {
-		violation(map[byte]string{'g': "get", 'G': "get", 'e': "exists", 'E': "exists", 'a': "attributes", 'A': "attributes", 'i': "iter"}[op.kind]+"-not-transparent",
-			fmt.Sprintf("%c on %q: caching bucket %s, wrapped bucket %s", op.kind, name, short(got), short(want)))
-	}
-	// canonical: the modification time is compared above, not printed
-	if i := strings.Index(got, "@"); i > 0 && strings.HasPrefix(got, "size:") {
-		got = got[:i]
-	}
-	for i, c := range calls {
-		if c == "A" {
-			calls[i] = "Attributes"
-		}
-	}
-	return got + "/" + hlib.Join(calls, "+")
 }
 
 func short(s string) string {
@@ -623,8 +754,6 @@ func genC14(c *hlib.Ctx) {
 		c.Count(fmt.Sprintf("history-len:%s", bucket(nops)))
 		c.Do(fmt.Sprintf("cb.hist %s %d %d %d %s", hlib.Hex(obj), S, maxSub, p, strings.Join(ops, ";")), true)
 	}
-	// every verb: Get (whole / partial / exact reads, size limit), Exists, Attributes, Iter, range
-	// reads, on a present and on an absent object
 	pat := func(n int) string {
 		b := make([]byte, n)
 		for i := range b {
@@ -632,6 +761,99 @@ func genC14(c *hlib.Ctx) {
 		}
 		return string(b)
 	}
+	// worlds: several objects with nested names, every verb on present and absent names, listings
+	// of the same and of different directories in both flavours (recursive / not) and both orders
+	namePool := []string{"01ABC/meta.json", "01ABC/index", "01ABC/chunks/000001", "01ABC/chunks/000002",
+		"01DEF/meta.json", "01DEF/chunks/000001", "top", "a:1", "a:1/x", "01ABC", "debug/metas/01ABC.json"}
+	dirPool := []string{"", "01ABC", "01ABC/", "01ABC/chunks", "01ABC/chunks/", "01DEF/", "a:1/", "nosuch/", "debug/"}
+	for round := 0; round < c.N(300, 8000); round++ {
+		S := []int{1, 3, 16}[r.Intn(3)]
+		nobj := r.Range(1, 7)
+		objects := map[string][]byte{}
+		for len(objects) < nobj {
+			objects[r.Pick(namePool)] = r.Bytes(r.Intn(3*S + 3))
+		}
+		inmem := objstore.NewInMemBucket()
+		var objToks []string
+		names := hlib.SortedKeys(objects)
+		for _, n := range names {
+			_ = inmem.Upload(context.Background(), n, bytes.NewReader(objects[n]))
+			objToks = append(objToks, hlib.HexS(n)+"="+hlib.Hex(objects[n]))
+		}
+		someName := func() string {
+			if r.Chance(1, 5) {
+				return r.Pick(namePool) // possibly absent
+			}
+			return names[r.Intn(len(names))]
+		}
+		iterOp := func(dir string, rec bool) string {
+			var lst []string
+			_ = inmem.Iter(context.Background(), dir, func(n string) error { lst = append(lst, hlib.HexS(n)); return nil }, iterOpts(rec)...)
+			recS := "0"
+			if rec {
+				recS = "1"
+				c.Count("world:iter-recursive")
+			} else {
+				c.Count("world:iter-flat")
+			}
+			return fmt.Sprintf("i:%s:%s:%s:%s", hlib.HexS(dir), recS, pat(1), hlib.Join(lst, ","))
+		}
+		nops := r.Range(2, 20)
+		var ops []string
+		for i := 0; i < nops; i++ {
+			switch r.Intn(10) {
+			case 0, 1:
+				n := someName()
+				size := len(objects[n])
+				ops = append(ops, fmt.Sprintf("r:%s:%d:%d:%d:%s:%s", hlib.HexS(n), r.Intn(size+2), r.Range(1, size+2), []int{1, 3, 512}[r.Intn(3)], pat(1), genPat(c)))
+			case 2, 3:
+				n := someName()
+				mode := "f"
+				switch r.Intn(4) {
+				case 0:
+					mode = "x"
+				case 1:
+					mode = fmt.Sprintf("h%d", r.Intn(len(objects[n])+1))
+				}
+				ops = append(ops, fmt.Sprintf("g:%s:%s:%s", hlib.HexS(n), mode, pat(2)))
+			case 4:
+				ops = append(ops, fmt.Sprintf("e:%s:%s", hlib.HexS(someName()), pat(1)))
+			case 5:
+				ops = append(ops, fmt.Sprintf("a:%s:%s", hlib.HexS(someName()), pat(1)))
+			case 6: // the same directory in both flavours, one right after the other
+				d := r.Pick(dirPool)
+				first := r.Bool()
+				ops = append(ops, iterOp(d, first), iterOp(d, !first))
+				c.Count("world:iter-both-flavours-same-dir")
+			default:
+				ops = append(ops, iterOp(r.Pick(dirPool), r.Bool()))
+			}
+		}
+		maxGet := []int{0, 2, 1000}[r.Intn(3)]
+		c.Count(fmt.Sprintf("world:objects=%d", len(objects)))
+		c.Do(fmt.Sprintf("cb.world %d %d %d %s %s %s", S, r.Intn(3), maxGet, hlib.HexS(r.Pick([]string{"h", "", "cfg1"})), strings.Join(objToks, ","), strings.Join(ops, ";")), true)
+	}
+	// the key strings: every verb, names with ':' and digits, ranges at digit-count boundaries
+	for i := 0; i < c.N(300, 5000); i++ {
+		name := r.Pick([]string{"obj", "01H/chunks/000001", "a:1", "a:1:2", "a", "", "x:0:16", "é"})
+		if r.Chance(1, 3) {
+			name += r.Pick([]string{":", ":1", "1", ":10:20"})
+		}
+		v := r.Intn(6)
+		var start, end int64
+		hash := ""
+		switch v {
+		case 5:
+			start = []int64{0, 1, 9, 10, 16, 99, 100, 16000}[r.Intn(8)]
+			end = start + []int64{1, 6, 16, 90, 16000}[r.Intn(5)]
+		case 2, 3:
+			hash = r.Pick([]string{"", "h", "deadbeef"})
+		}
+		c.Count(fmt.Sprintf("key:verb-%d", v))
+		c.Do(fmt.Sprintf("cb.key %d %s %d %d %s", v, hlib.HexS(name), start, end, hlib.HexS(hash)), true)
+	}
+	// every verb: Get (whole / partial / exact reads, size limit), Exists, Attributes, Iter, range
+	// reads, on a present and on an absent object
 	for round := 0; round < c.N(300, 8000); round++ {
 		S := []int{1, 3, 16}[r.Intn(3)]
 		size := r.Intn(4*S + 3)
